@@ -21,6 +21,7 @@ ANCHORS = ['pycaption.srt:SRTReader._srttomicro', 'pycaption.srt:SRTReader._find
            'pycaption.sami:SAMIReader._translate_lang',
            'pycaption.microdvd:MicroDVDReader.read', 'pycaption.microdvd:MicroDVDReader._framestomicro',
            'pycaption.base:Caption.__init__']
+THOROUGH_SCALE = 3        # random budgets of the thorough tier are multiplied by this
 REQUIRE = {'docs_srt': 20, 'docs_webvtt': 20, 'docs_dfxp': 20, 'docs_sami': 20, 'docs_microdvd': 20,
            'feature_hour>=24': 10, 'feature_frames': 5, 'feature_dur': 5, 'feature_shift': 5,
            'feature_fps-header': 5, 'feature_blank-sync': 5, 'feature_no-fraction': 3,
